@@ -3,6 +3,10 @@ HOOK_COMMITS = []
 NOTES = "See DESIGN.md. Known findings / fixed defects: known_findings.json."
 NOT_BUILT = {}
 BUILT = {
+ "C04": dict(
+   text="Coq theorems over Model.Memory / Model.Dag: admission is exact (plan_accepted <-> every op's projected <= allowed, equality accepted), default_optimizer_fits (no forced fusion => every op of the optimised DAG still fits, for every DAG / visiting order / limits), fused_op_not_under_reported, peak_projected bounds; tied to /repo by evaluating the model on the integers of real finalized plans and by probing the real admission boundary (allowed_mem = M-1, M, M+1) with a tracing store and event callback on the local executors",
+   note="partial: 'nothing written before refusal' is observed on the tracing store (intermediate store only) and callbacks, the theorem covers the decision arithmetic and the optimizer's memory guard; plans depend on the budget so M is re-read per probe",
+   technique="Rocq proof over Gallina memory/optimizer model + vm_compute correspondence on real plans + boundary probing"),
  "C08": dict(
    text="Coq theorems (no_double_delivery, delivered_succeeded, submissions_bounded, never_crashes, raise_is_genuine, done_exactly_once, futures_bounded, wake_progress, retry_*) proved by invariant over a Gallina step-function model of async_map_unordered for every script of completions / iteration orders / backup-policy answers / batch sizes; the model is tied to /repo by replaying, inside Coq, the choices recorded while the REAL async_map_unordered runs under a scripted discrete-event simulation (asyncio.wait, time and the backup policy shimmed), plus the real tenacity wrapper and an end-to-end fault-injecting store under the threads executor",
    note="partial: a future that completes between asyncio.wait returning and the loop inspecting its twin is not in the model (benign by the same invariant); real thread timing is only exercised end to end; liveness is 'every effective wake-up consumes one of at most 2n futures', a never-completing future is outside the statement",
